@@ -5,5 +5,6 @@ CONSTANTS
   LastChanceAny = {}
   WalkSorted = TRUE
   AssumeUserRange = FALSE
+  QueryTypes = {"full"}
 INVARIANTS FullKeepsActions
 CHECK_DEADLOCK FALSE
